@@ -130,4 +130,28 @@ PROPS = {
         'level_note': 'White-space amounts are not compared (token-level); shapes the statement is silent about (more actuals than formals, `define inside bodies) are not generated.',
         'design_ref': '5 / C05',
     },
+    'C06': {
+        'title': 'identity on directive-free text; fixed point',
+        'rule': 'one case = either a directive-free lexical soup over ~75 fragment kinds / a directive-free corpus program (byte identity, identity origin vector, rejection only with one of the three permitted faults) '
+                'or a G-PP program whose successful output is preprocessed again with the same initial defines (fixed point); non-trivial = identical output with all origins checked, or fixed point reached; distinct by hash of source',
+        'evaluations_key': 'cases',
+        'floors': {'quick': {'identity_inputs': 60000, 'identical': 35000, 'origin_positions_checked': 3000000, 'rejected_with_permitted_fault': 5000, 'fixed_point_inputs': 20000, 'fixed_points_with_kept_directives': 8000},
+                   'thorough': {'identity_inputs': 1500000, 'fixed_point_inputs': 500000}},
+        'technique': 'runtime monitor: byte-for-byte identity and identity-origin oracle on generated directive-free text, idempotence (metamorphic) oracle on outputs of successful runs; exact executable model of finding K1 for attribution',
+        'level_text': 'The real preprocessor is run on tens of thousands of directive-free soups and its output and origin map are compared with the input itself; outputs of successful runs are fed back and must reproduce themselves.',
+        'level_note': 'The scanner deciding whether a text has one of the three permitted faults is lexer.rs; outputs that contain a literal followed by trivia (K1 trigger) are skipped in the fixed-point sub-workload and counted.',
+        'design_ref': '5 / C06',
+    },
+    'C18': {
+        'title': 'strip_comments',
+        'rule': 'one case = one G-PP program rendered with comments as frequent only-separators, or a lexical soup, preprocessed with and without strip_comments; '
+                'non-trivial = both succeed, the plain output contains comments, token sequences / tables compared and the stripped output scanned; distinct by hash of source',
+        'evaluations_key': 'inputs',
+        'floors': {'quick': {'inputs': 90000, 'both_ok': 70000, 'comments_in_plain_output': 60000, 'both_error': 5000},
+                   'thorough': {'inputs': 2000000, 'both_ok': 1500000}},
+        'technique': 'runtime monitor: differential execution of the real preprocessor with the flag on and off (token sequences via lexer.rs, define tables with origins, error Debug) plus a string-aware scan of the stripped output',
+        'level_text': 'Every generated input is preprocessed twice and the two runs are compared token-wise, table-wise and error-wise; the stripped output is scanned for comments outside kept `define lines.',
+        'level_note': 'Token comparison uses lexer.rs on both outputs; a comment that survives behind a string literal / escaped identifier is attributed to finding K1.',
+        'design_ref': '5 / C18',
+    },
 }
